@@ -221,3 +221,23 @@ theorem from_ls_ref_step (other : Handle) (rf : Refuse) (st : List Bytes) (hp : 
   | ok pr => rt_step [onRepr_ap, call_norm, hc, hs, norm_next]
 
 end LS.GenTie
+
+namespace LS.GenTie
+
+/-! ### the remaining inherent wrappers: `is_empty`, `as_str`, `as_bytes`, `try_retain`, `retain` -/
+
+theorem ls_is_empty_step (s : St) : GenRepr.LeanString.is_empty s = .next (decide (s.self.len = 0)) s := by
+  unfold GenRepr.LeanString.is_empty; rt_step [Repr.is_empty]
+theorem ls_as_str_is (s : St) : GenRepr.LeanString.as_str s = (Rt.bind Repr.as_str fun t => Rt.pure t : M Str Str) s := by
+  unfold GenRepr.LeanString.as_str; rfl
+theorem ls_as_bytes_is (s : St) : GenRepr.LeanString.as_bytes s = (Rt.bind Repr.as_bytes fun t => Rt.pure t : M RawSlice RawSlice) s := by
+  unfold GenRepr.LeanString.as_bytes; rfl
+/-- `try_retain` is `Repr::retain`; `retain` is `try_retain` unwrapped -/
+theorem try_retain_is (p : Pred) (fuel : Nat) (s : St) :
+    GenRepr.LeanString.try_retain p fuel s = norm (GenRepr.Repr.retain p fuel s) := by
+  unfold GenRepr.LeanString.try_retain; exact bind_call_pure _ s
+theorem retain_is (p : Pred) (fuel : Nat) (s : St) :
+    GenRepr.LeanString.retain p fuel s = unwrapN (GenRepr.LeanString.try_retain p fuel s) := by
+  unfold GenRepr.LeanString.retain; exact call_unwrap _ s
+
+end LS.GenTie
